@@ -55,8 +55,15 @@ fn fit_hh(f: &str, x: &[f64], y: &[f64], w: Option<&[f64]>, o: Option<&[f64]>, a
             let _ = g.fit(x, y, 1);
             let _ = (g.coef().map(|c| c.to_vec()), g.coef_standard_error(), g.coef_covariance_matrix(), g.deviance(), g.dispersion());
         }
+        // history 3: the configuration is written through the PUBLIC FIELDS (alpha, tolerance, weights) instead of the setters
+        if history == 3 {
+            g.alpha = alpha;
+            g.tolerance = tol;
+            if let Some(w) = w { g.weights = Some(w.to_vec()); }
+            if let Some(o) = o { g.set_offset(o); }
+        }
         // after history 2 the object is already configured: the retry must use that configuration as it stands
-        if history != 2 {
+        if history != 2 && history != 3 {
             if alpha > 0.0 { g.set_penalty(alpha); }
             if let Some(w) = w { g.set_weights(w); }
             if let Some(o) = o { g.set_offset(o); }
@@ -129,12 +136,26 @@ pub fn replay(cases: &str, verdicts: &str) {
         }
         // the same problem on an object with a history (an inspected earlier fit on a narrower design; a failed fit): every reported
         // quantity is that of the fresh fit
-        for hist in [1u8, 2] {
+        for hist in [1u8, 2, 3] {
             let rh = fit_hh(fam, &x, &y, wopt, oopt, alpha, 1e-13, 200, hist);
             let okh = match &rh { Some(Ok(fh)) => rel_ok(&fh.coef, &ft.coef, 1e-8) && rel_ok(&fh.se, &ft.se, 1e-7) && rel_ok(&fh.cov, &ft.cov, 1e-7) && fh.cov.len() == p * p
                 && (fh.dev - ft.dev).abs() <= 1e-8 * ft.dev.abs().max(1e-9) && (fh.disp - ft.disp).abs() <= 1e-8 * ft.disp.abs().max(1e-9) && rel_ok(&fh.pred, &ft.pred, 1e-8), _ => false };
-            v.check(okh, if hist == 1 { "same results after an inspected earlier fit" } else { "same results after a failed fit" }, &class, &c,
+            v.check(okh, if hist == 1 { "same results after an inspected earlier fit" } else if hist == 2 { "same results after a failed fit" } else { "same results configured through the public fields" }, &class, &c,
                     json!(match &rh { Some(Ok(fh)) => json!({"se": fjs(&fh.se), "fresh_se": fjs(&ft.se)}), Some(Err(e)) => json!(e), None => json!("panic") }));
+        }
+        // the Gaussian family in other units: responses and offsets times s = 2^-40 / 2^30 scale coefficients, predictions and standard
+        // errors by s, deviance and dispersion by s^2 (exactly: powers of two) - no absolute threshold may enter
+        if gaussian {
+            for e in [-40i32, 30] {
+                let sc = 2f64.powi(e);
+                let (ys, os): (Vec<f64>, Vec<f64>) = (y.iter().map(|t| t * sc).collect(), o.iter().map(|t| t * sc).collect());
+                let rs = fit(fam, &x, &ys, wopt, if has_o { Some(&os[..]) } else { None }, alpha, 1e-13, 200);
+                let oks = match &rs { Some(Ok(fs)) => { let un = |v: &[f64], k: f64| -> Vec<f64> { v.iter().map(|t| t / k).collect() };
+                    rel_ok(&un(&fs.coef, sc), &ft.coef, 1e-8) && rel_ok(&un(&fs.se, sc), &ft.se, 1e-7) && rel_ok(&un(&fs.cov, sc * sc), &ft.cov, 1e-7) && rel_ok(&un(&fs.pred, sc), &ft.pred, 1e-8)
+                    && (fs.dev / (sc * sc) - ft.dev).abs() <= 1e-8 * ft.dev.abs().max(1e-9) && (fs.disp / (sc * sc) - ft.disp).abs() <= 1e-8 * ft.disp.abs().max(1e-9) }, _ => false };
+                v.check(oks, "Gaussian fit in other units", &format!("{} {}", class, if e < 0 { "tiny-units" } else { "huge-units" }), &json!({"case": c, "scale_log2": e}),
+                        json!(match &rs { Some(Ok(fs)) => json!({"se": fjs(&fs.se), "se_unit_scale": fjs(&ft.se)}), Some(Err(e)) => json!(e), None => json!("panic") }));
+            }
         }
         // invariance under reordering the observations
         let perm: Vec<usize> = (0..n).rev().collect();
